@@ -1313,9 +1313,33 @@ func concAndE2E(w *gen.Writer, r *gen.Rand, nc, ne int, suffix string) {
 	}
 }
 
+// phases: the child writes one cases file per phase, so that a crash of the code under test (a use-after-unmap is a
+// SIGSEGV, a double SetFinalizer a fatal error: neither can be recovered) loses at most the cases of one phase.
+type phaser struct {
+	base string
+	n    int
+	w    *gen.Writer
+}
+
+func (p *phaser) next() *gen.Writer {
+	if p.w != nil {
+		p.w.Close()
+	}
+	p.w = gen.NewWriter(fmt.Sprintf("%s.phase%02d", p.base, p.n))
+	p.n++
+	return p.w
+}
+
+func (p *phaser) close() {
+	if p.w != nil {
+		p.w.Close()
+		p.w = nil
+	}
+}
+
 func main() {
 	mode := ""
-	// private flag for the -race child: `-mode race` must come first
+	// private flag for the children: `-mode child|race` must come first
 	if len(os.Args) > 2 && os.Args[1] == "-mode" {
 		mode = os.Args[2]
 		os.Args = append(os.Args[:1], os.Args[3:]...)
@@ -1326,17 +1350,95 @@ func main() {
 	if tmpRoot == "" {
 		tmpRoot = os.TempDir()
 	}
-	tmpRoot = filepath.Join(tmpRoot, "tmp")
+	tmpRoot = filepath.Join(tmpRoot, "tmp-"+mode)
 	os.MkdirAll(tmpRoot, 0o755)
 	defer os.RemoveAll(tmpRoot)
+
+	switch mode {
+	case "race":
+		w := gen.NewWriter(f.Out)
+		defer w.Close()
+		concAndE2E(w, gen.NewRand(f.Seed), 6, 6, "-race")
+	case "child":
+		childMain(f)
+	default:
+		parentMain(f)
+	}
+}
+
+// parentMain runs the real work in a child process and turns a crash of the child into a failing case.
+func parentMain(f gen.Flags) {
 	w := gen.NewWriter(f.Out)
 	defer w.Close()
-	r := gen.NewRand(f.Seed)
-
-	if mode == "race" {
-		concAndE2E(w, r, 6, 6, "-race")
-		return
+	base := f.Out + ".child"
+	old, _ := filepath.Glob(base + ".phase*")
+	for _, o := range old {
+		os.Remove(o)
 	}
+	args := []string{"-mode", "child", "-out", base, "-tier", f.Tier, "-seed", fmt.Sprint(f.Seed)}
+	if f.Replay != "" {
+		args = append(args, "-replay", f.Replay)
+	}
+	if f.Corpus != "" {
+		args = append(args, "-corpus", f.Corpus)
+	}
+	child := exec.Command(os.Args[0], args...)
+	var stderr bytes.Buffer
+	child.Stderr = &stderr
+	child.Stdout = os.Stdout
+	err := child.Run()
+	files, _ := filepath.Glob(base + ".phase*")
+	sort.Strings(files)
+	lastPhase := ""
+	for _, fn := range files {
+		b, e := os.ReadFile(fn)
+		if e != nil {
+			continue
+		}
+		for _, line := range strings.Split(string(b), "\n") {
+			var c gen.Case
+			var sm struct {
+				Summary map[string]int `json:"summary"`
+			}
+			if json.Unmarshal([]byte(line), &sm) == nil && sm.Summary != nil {
+				for k, v := range sm.Summary {
+					if !classNames[k] {
+						w.Count(k, v)
+					}
+				}
+				continue
+			}
+			if json.Unmarshal([]byte(line), &c) == nil && (c.Class != "" || c.In != "" || c.Go != "") {
+				if c.Class != "" {
+					classNames[c.Class] = true
+					lastPhase = c.Class
+				}
+				w.Emit(c)
+			}
+		}
+		os.Remove(fn)
+	}
+	if err != nil {
+		msg := stderr.String()
+		key := "crash-panic"
+		switch {
+		case strings.Contains(msg, "SIGSEGV") || strings.Contains(msg, "SIGBUS"):
+			key = "crash-sigsegv" // what a search on an unmapped shard looks like
+		case strings.Contains(msg, "fatal error"):
+			key = "crash-fatal"
+		}
+		w.Emit(gen.Case{Go: fmt.Sprintf("the process running the real code crashed (%v) after phase %q: %s", err, lastPhase, tail(msg, 2500)),
+			Key: key, Class: "crash", Detail: gen.Detail(map[string]any{"kind": "crash", "seed": f.Seed, "tier": f.Tier, "after": lastPhase})})
+	}
+}
+
+var classNames = map[string]bool{}
+
+func childMain(f gen.Flags) {
+	ph := &phaser{base: f.Out}
+	defer ph.close()
+	r := gen.NewRand(f.Seed)
+	w := ph.next()
 
 	if f.Replay != "" {
 		b, err := os.ReadFile(f.Replay)
@@ -1356,7 +1458,7 @@ func main() {
 		if st.Kind == "" {
 			st = rp.First.Detail
 		}
-		if st.Kind != "" {
+		if st.Kind != "" && st.Kind != "crash" {
 			runStored(w, st, "replay")
 			return
 		}
@@ -1381,26 +1483,40 @@ func main() {
 		w.Count("ms:"+name, int(time.Since(t0).Milliseconds()))
 		t0 = time.Now()
 	}
+	w = ph.next()
 	for i := 0; i < f.N(4000, 200000); i++ {
 		w.Emit(vfpCase(genPath(r)))
 	}
 	lap("vfp")
-	for i := 0; i < f.N(250, 6000); i++ {
+	w = ph.next()
+	for i := 0; i < f.N(250, 3000); i++ {
 		runScanSeq(w, genScanSeq(r), "scan")
 	}
 	lap("scan")
-	for i := 0; i < f.N(100, 3000); i++ {
+	w = ph.next()
+	for i := 0; i < f.N(100, 1000); i++ {
 		w.Emit(runCow(genCow(r), "cow"))
 	}
 	lap("cow")
-	for i := 0; i < f.N(40, 2500); i++ {
+	w = ph.next()
+	for i := 0; i < f.N(40, 400); i++ {
 		w.Emit(runRScan(genRScan(r), "rscan"))
 	}
 	lap("rscan")
-	concAndE2E(w, r, f.N(4, 60), f.N(4, 80), "")
-	lap("conc+e2e")
+	nc, ne := f.N(4, 30), f.N(4, 30)
+	for i := 0; i < nc; i++ {
+		w = ph.next()
+		concAndE2E(w, r, 1, 0, "")
+	}
+	lap("conc")
+	for i := 0; i < ne; i++ {
+		w = ph.next()
+		concAndE2E(w, r, 0, 1, "")
+	}
+	lap("e2e")
 
 	if f.Tier == "thorough" {
+		w = ph.next()
 		raceChild(w, f)
 	}
 }
